@@ -132,7 +132,7 @@ def _fg_chunk(job):
     n_eval = 0
     n_struct = 0
     bad = {}
-    for idx, d in enumerate(gs.family_structures(n)):
+    for idx, d in enumerate(itertools.chain(*[gs.family_structures(n, ids=lab) for lab in gs.ID_LABELLINGS])):
         if idx < lo:
             continue
         if idx >= hi:
@@ -236,7 +236,7 @@ def run(tier="quick", seed=0, jobs=16):
     nmax = 4 if tier == "quick" else 5
     jobs_list = []
     for n in range(1, nmax + 1):
-        total = sum(1 for _ in gs.family_structures(n))
+        total = len(gs.ID_LABELLINGS) * sum(1 for _ in gs.family_structures(n))
         step = max(1, total // (jobs * (4 if n >= 4 else 1)) + 1)
         for lo in range(0, total, step):
             jobs_list.append((n, lo, min(total, lo + step)))
@@ -251,7 +251,7 @@ def run(tier="quick", seed=0, jobs=16):
         for sig, ex in res[2].items():
             if sig not in fg_bad or ex["n"] < fg_bad[sig]["n"]:
                 fg_bad[sig] = ex
-    rep.bounded["fg_id_numpy_exhaustive"] = {"evaluations": fg_eval, "distinct_nontrivial": fg_struct, "rule": f"all typed pointer structures up to isomorphism with <= {nmax} persons, <= 2 households (roles adult/young adult/child; symmetric partner matchings; parents among older roles) x ALL row orders; oracle specs/groupings_spec.expected_fg", "failure_classes": sorted(fg_bad), "exhaustive": True, "seconds": round(time.time() - t0, 1)}
+    rep.bounded["fg_id_numpy_exhaustive"] = {"evaluations": fg_eval, "distinct_nontrivial": fg_struct, "rule": f"all typed pointer structures up to isomorphism with <= {nmax} persons, <= 2 households (roles adult/young adult/child; symmetric partner matchings; parents among older roles; two p_id labellings, one with p_id 0 as the first adult) x ALL row orders; oracle specs/groupings_spec.expected_fg", "failure_classes": sorted(fg_bad), "exhaustive": True, "seconds": round(time.time() - t0, 1)}
     rep.functions.add("src/_gettsim/groupings.py:101 fg_id_numpy (bounded exhaustive, not proved)")
     for b in bad + bad2:
         rep.violation(f"{b['kernel']}:spec-mismatch", f"{b['kernel']} on {b['inputs']} gives {b['got']}, expected {b.get('expected')}", b, True)
